@@ -98,6 +98,10 @@ class Judge:
         r = self.r5
         r.count('evaluations')
         r.count('steps_checked')
+        if any(S_prev.n[i] >= S_prev.n[i + 1] for i in range(4)):
+            r.violation('C05', 'Quantile.add:state:positions-not-increasing',
+                        'Quantile(p=%r) %s: marker positions %r are not strictly increasing' % (p, ctx, S_prev.n), case, self.variant)
+            return False
         ev = {}
         cands = p2.step(S_prev, x, ev)
         for k, v in ev.items():
